@@ -69,6 +69,7 @@ func VfC07_ParseGEP() {
 	src := pre + "@g = global " + T + " zeroinitializer\n" +
 		"define void @f(" + baseT + " %p) {\n" +
 		"\t%r = getelementptr " + T + ", " + baseT + " %p, " + idx + ", i32 1, i32 2, i32 1\n" +
+		"\t%z = getelementptr " + T + ", " + baseT + " %p\n" + // no indices (valid LLVM): the type of the base
 		"\tret void\n}\n" +
 		"@c = global i8 0\n" +
 		"@e = global " + resultText(vs, nd, ad, baseVec || vecIdx) + " getelementptr (" + T + ", " + baseT + " undef, " + idx + ", i32 1, i32 2, i32 1)\n"
@@ -88,6 +89,14 @@ func VfC07_ParseGEP() {
 	vfAssert("C07.parse.inst.attached", hC06Same(inst.Typ, want))
 	inst.Typ = nil
 	vfAssert("C07.parse.inst.recomputed", hC06Same(inst.Type(), want))
+	zero := m.Funcs[0].Blocks[0].Insts[1].(*ir.InstGetElementPtr)
+	var wantZero types.Type = &types.PointerType{ElemType: inst.ElemType, AddrSpace: as}
+	if baseVec {
+		wantZero = &types.VectorType{Len: n, ElemType: wantZero, Scalable: scal}
+	}
+	vfAssert("C07.parse.zero-index.attached", hC06Same(zero.Typ, wantZero))
+	zero.Typ = nil
+	vfAssert("C07.parse.zero-index.recomputed", hC06Same(zero.Type(), wantZero))
 	expr := m.Globals[2].Init.(*constant.ExprGetElementPtr)
 	vfAssert("C07.parse.expr.attached", hC06Same(expr.Typ, want))
 	expr.Typ = nil
